@@ -20,6 +20,30 @@ import (
 
 type c16Starter func(cfg verifh.Cfg) (func(op []string) string, func())
 
+// values: 0 stands for a Go nil (Put(nil), Set(k, nil), a loader returning (nil, nil)); a stored nil is PRESENT
+func c16Val(v int) any {
+	if v == 0 {
+		return nil
+	}
+	return v
+}
+
+func c16ValBack(x any) int {
+	if x == nil {
+		return 0
+	}
+	return x.(int)
+}
+
+// c16PutVal: the next value of a generated history, now and then a nil
+func c16PutVal(r *verifh.Rng, next *int) int {
+	if r.Chance(1, 12) {
+		return 0
+	}
+	*next++
+	return *next - 1
+}
+
 var c16Starters = map[string]c16Starter{
 	"queue":   c16StartQueue,
 	"ring":    c16StartRing,
@@ -174,6 +198,9 @@ func c16GenQueue(r *verifh.Rng) []verifh.Section {
 		if i == 0 {
 			size = 0 // outside the property: Put panics (index out of range), state unchanged
 		}
+		if i == 1 {
+			size = -2 // NewQueue(negative): make panics, no queue exists
+		}
 		var ops []string
 		next := 1
 		nops := r.Range(5, verifh.Scale(80, 200))
@@ -188,8 +215,7 @@ func c16GenQueue(r *verifh.Rng) []verifh.Section {
 			case x < 6:
 				ops = append(ops, "empty")
 			case x < 6+bias*94/100:
-				ops = append(ops, fmt.Sprintf("put %d", next))
-				next++
+				ops = append(ops, fmt.Sprintf("put %d", c16PutVal(r, &next)))
 			default:
 				ops = append(ops, "take")
 			}
@@ -240,18 +266,24 @@ func c16GenQueue(r *verifh.Rng) []verifh.Section {
 }
 
 func c16StartQueue(cfg verifh.Cfg) (func(op []string) string, func()) {
-	q := NewQueue(cfg.Int("size", 1))
+	var q *Queue
+	func() {
+		defer func() { recover() }()
+		q = NewQueue(cfg.Int("size", 1))
+	}()
 	return func(op []string) string {
 		switch {
+		case q == nil:
+			return "PANIC-new"
 		case len(op) == 2 && op[0] == "put":
-			q.Put(verifh.Atoi(op[1]))
+			q.Put(c16Val(verifh.Atoi(op[1])))
 			return "ok"
 		case len(op) == 1 && op[0] == "take":
 			v, ok := q.Take()
 			if !ok {
 				return "none"
 			}
-			return strconv.Itoa(v.(int))
+			return strconv.Itoa(c16ValBack(v))
 		case len(op) == 1 && op[0] == "empty":
 			return strconv.FormatBool(q.Empty())
 		}
@@ -278,8 +310,7 @@ func c16GenRing(r *verifh.Rng) []verifh.Section {
 		}
 		dense := r.Chance(1, 3)
 		for j := 0; j < nops; j++ {
-			ops = append(ops, fmt.Sprintf("add %d", next))
-			next++
+			ops = append(ops, fmt.Sprintf("add %d", c16PutVal(r, &next)))
 			if dense || r.Chance(1, 4) {
 				ops = append(ops, "take")
 			}
@@ -296,18 +327,37 @@ func c16StartRing(cfg verifh.Cfg) (func(op []string) string, func()) {
 		defer func() { recover() }()
 		rg = NewRing(cfg.Int("n", 1))
 	}()
+	// slices handed out by earlier Takes (and a private copy of each): a later Add must not change them - Take has to
+	// return a fresh slice, never a view of the ring's own buffer
+	var held, heldCopy [][]any
 	return func(op []string) string {
 		switch {
 		case rg == nil:
 			return "PANIC-new"
 		case len(op) == 2 && op[0] == "add":
-			rg.Add(verifh.Atoi(op[1]))
+			rg.Add(c16Val(verifh.Atoi(op[1])))
 			return "ok"
 		case len(op) == 1 && op[0] == "take":
 			vs := rg.Take()
 			ss := make([]string, len(vs))
 			for i, v := range vs {
-				ss[i] = strconv.Itoa(v.(int))
+				ss[i] = strconv.Itoa(c16ValBack(v))
+			}
+			for i := range held {
+				for j := range held[i] {
+					if held[i][j] != heldCopy[i][j] {
+						ss = append(ss, "HELD-SLICE-CHANGED")
+						held, heldCopy = nil, nil
+						break
+					}
+				}
+				if held == nil {
+					break
+				}
+			}
+			if len(held) < 8 {
+				held = append(held, vs)
+				heldCopy = append(heldCopy, append([]any(nil), vs...))
 			}
 			return strings.Join(ss, " ")
 		}
@@ -332,6 +382,8 @@ func c16Elem(t, v int) any {
 		return strconv.Itoa(v)
 	case 7:
 		return float64(v)
+	case 8:
+		return nil // Add(nil) / Contains(nil): an element like any other (no case of the type switches)
 	}
 	panic("c16: bad element type")
 }
@@ -350,6 +402,8 @@ func c16ElemBack(x any) (int, int) {
 		return stringType, verifh.Atoi(e)
 	case float64:
 		return 7, int(e)
+	case nil:
+		return 8, 0
 	}
 	panic("c16: unexpected element")
 }
@@ -365,7 +419,10 @@ func c16GenSet(r *verifh.Rng) []verifh.Section {
 		elem := func() string {
 			t := main
 			if mixed && r.Chance(1, 3) {
-				t = r.Range(2, 7)
+				t = r.Range(2, 8)
+			}
+			if t == 8 {
+				return "8 0" // nil
 			}
 			return fmt.Sprintf("%d %d", t, r.Intn(nvals))
 		}
@@ -498,7 +555,7 @@ func c16StartSet(cfg verifh.Cfg) (func(op []string) string, func()) {
 			var views [][2]int
 			for _, k := range all {
 				t, v := c16ElemBack(k)
-				if t == 7 {
+				if t >= 7 {
 					views = append(views, [2]int{t, v})
 				}
 				pairs = append(pairs, [2]int{t, v})
@@ -545,6 +602,10 @@ func c16GenSafeMap(r *verifh.Rng) []verifh.Section {
 	cfg := fmt.Sprintf("s=safemap maxdel=%d copythr=%d", maxDeletion, copyThreshold)
 	probe := func(ops []string, nkeys int) []string {
 		ops = append(ops, "st", "size")
+		// Range with a callback that says stop at its j-th call (inside the old generation, at its end, beyond)
+		ops = append(ops, fmt.Sprintf("rangestop %d", r.Pick(1, 1, 2, 3, r.Range(1, nkeys+2))))
+		// … relative to the old generation's size at that moment (`o+d`): at its last pair, inside the new generation
+		ops = append(ops, fmt.Sprintf("rangestop o+%d", r.Pick(0, 1, 1, 2, 5)))
 		for j := 0; j < 3; j++ {
 			ops = append(ops, fmt.Sprintf("get %d", r.Intn(nkeys+1)))
 		}
@@ -560,7 +621,7 @@ func c16GenSafeMap(r *verifh.Rng) []verifh.Section {
 			k := r.Intn(nkeys)
 			switch x := r.Intn(100); {
 			case x < 35:
-				ops = append(ops, fmt.Sprintf("set %d %d", k, r.Intn(1000)))
+				ops = append(ops, fmt.Sprintf("set %d %d", k, r.Pick(0, r.Intn(1000), r.Intn(1000), r.Intn(1000), r.Intn(1000))))
 			case x < 60:
 				ops = append(ops, fmt.Sprintf("del %d", k))
 			case x < 85:
@@ -569,12 +630,54 @@ func c16GenSafeMap(r *verifh.Rng) []verifh.Section {
 				ops = append(ops, "size")
 			case x < 96:
 				ops = append(ops, "st")
-			default:
+			case x < 98:
 				ops = append(ops, "range")
+			default:
+				ops = append(ops, fmt.Sprintf("rangestop %d", r.Pick(0, 1, 1, 2, r.Range(1, nkeys+2))))
 			}
 		}
-		ops = append(ops, "range", "size")
+		ops = append(ops, "range", "size", fmt.Sprintf("rangestop %d", r.Range(1, nkeys+1)))
 		secs = append(secs, verifh.Section{Cfg: cfg, Ops: ops})
+	}
+	// preloaded sections: the state a long run of deletions leads to, set up directly - `pre=n:d`: keys 0…n-1 are
+	// Set (n >= copyThreshold, so Del does not merge the old generation away), then deletionOld is poked to d.  The
+	// state is reachable (n Sets, then d times Set/Del of a key outside 0…n-1; d <= maxDeletion+1), the long sections
+	// below reach it the honest way.  Short histories then cross the switch `deletionOld > maxDeletion` and work with BOTH
+	// generations non-empty: Set moves keys old -> new, Get / Range / Size see both, a stopping Range callback.
+	for i := 0; i < verifh.Scale(5, 40); i++ {
+		n := copyThreshold + r.Range(0, 40)
+		d := maxDeletion + r.Pick(1, 1, 0, -2)
+		hot := make([]int, r.Range(3, 7))
+		for j := range hot {
+			hot[j] = r.Pick(r.Intn(n), r.Intn(n), n+j) // keys of the old generation and fresh ones
+		}
+		var ops []string
+		val := n + 10
+		for j, nops := 0, r.Range(20, verifh.Scale(70, 120)); j < nops; j++ {
+			k := hot[r.Intn(len(hot))]
+			switch x := r.Intn(100); {
+			case x < 35:
+				ops = append(ops, fmt.Sprintf("set %d %d", k, r.Pick(0, val, val, val)))
+				val++
+			case x < 55:
+				ops = append(ops, fmt.Sprintf("del %d", k))
+			case x < 75:
+				ops = append(ops, fmt.Sprintf("get %d", k))
+			case x < 80:
+				ops = append(ops, "size")
+			case x < 85:
+				ops = append(ops, "st")
+			case x < 92:
+				ops = append(ops, fmt.Sprintf("rangestop %d", r.Pick(1, 1, 2, 3, n-1, n)))
+			default:
+				ops = append(ops, fmt.Sprintf("rangestop o+%d", r.Pick(0, 1, 1, 2, 5)))
+			}
+		}
+		ops = append(ops, "st", "size", "rangestop 1", "rangestop o+1", "range")
+		for _, k := range hot {
+			ops = append(ops, fmt.Sprintf("get %d", k))
+		}
+		secs = append(secs, verifh.Section{Cfg: fmt.Sprintf("%s pre=%d:%d", cfg, n, d), Ops: ops})
 	}
 	// long runs of deletions: the generation switches
 	nlong := verifh.Scale(1, 4)
@@ -684,10 +787,16 @@ func c16GenSafeMap(r *verifh.Rng) []verifh.Section {
 
 func c16StartSafeMap(cfg verifh.Cfg) (func(op []string) string, func()) {
 	m := NewSafeMap()
+	if pre := strings.Split(cfg.Str("pre", ""), ":"); len(pre) == 2 {
+		for k, n := 0, verifh.Atoi(pre[0]); k < n; k++ {
+			m.Set(k, k+1)
+		}
+		m.deletionOld = verifh.Atoi(pre[1])
+	}
 	return func(op []string) string {
 		switch {
 		case len(op) == 3 && op[0] == "set":
-			m.Set(verifh.Atoi(op[1]), verifh.Atoi(op[2]))
+			m.Set(verifh.Atoi(op[1]), c16Val(verifh.Atoi(op[2])))
 			return "ok"
 		case len(op) == 2 && op[0] == "del":
 			m.Del(verifh.Atoi(op[1]))
@@ -697,16 +806,32 @@ func c16StartSafeMap(cfg verifh.Cfg) (func(op []string) string, func()) {
 			if !ok {
 				return "none"
 			}
-			return strconv.Itoa(v.(int))
+			return strconv.Itoa(c16ValBack(v))
 		case len(op) == 1 && op[0] == "size":
 			return strconv.Itoa(m.Size())
 		case len(op) == 1 && op[0] == "range":
 			var pairs [][2]int
 			m.Range(func(k, v any) bool {
-				pairs = append(pairs, [2]int{k.(int), v.(int)})
+				pairs = append(pairs, [2]int{k.(int), c16ValBack(v)})
 				return true
 			})
 			return c16Pairs(pairs)
+		case len(op) == 2 && op[0] == "rangestop":
+			// f answers false from its j-th call on (j = 0: never): Range must return at once, out of both loops
+			var j int
+			if strings.HasPrefix(op[1], "o+") {
+				j = len(m.dirtyOld) + verifh.Atoi(op[1][2:])
+			} else {
+				j = verifh.Atoi(op[1])
+			}
+			var pairs [][2]int
+			calls := 0
+			m.Range(func(k, v any) bool {
+				calls++
+				pairs = append(pairs, [2]int{k.(int), c16ValBack(v)})
+				return j == 0 || calls < j
+			})
+			return strings.TrimSpace(fmt.Sprintf("calls=%d %s", calls, c16Pairs(pairs)))
 		case len(op) == 1 && op[0] == "st":
 			return fmt.Sprintf("%d %d %d %d", m.deletionOld, m.deletionNew, len(m.dirtyOld), len(m.dirtyNew))
 		}
